@@ -224,11 +224,11 @@ def QSt.legacy (s : QSt) : QSt := ⟨s.self.legacy, s.derivs.map fun kd => (kd.1
 
 /-- integer data is of the native dtype (what the old decoder assumed) -/
 def NativeInts (q : QObj) : Prop :=
-  (∀ w sg, q.self.dtype = .int w sg → w = 8 ∧ sg = true) ∧
-  ∀ kd ∈ q.derivs, ∀ w sg, kd.2.dtype = .int w sg → w = 8 ∧ sg = true
+  (∀ w sg, q.self.dtype = .int w sg → w = 8 ∧ sg = IntFmt.native) ∧
+  ∀ kd ∈ q.derivs, ∀ w sg, kd.2.dtype = .int w sg → w = 8 ∧ sg = IntFmt.native
 
 theorem getstateDeriv_native (P : Params) (pd : Digits × Digits) (am : Option (List Bool)) (d : Obj)
-    (h : ∀ w sg, d.dtype = .int w sg → w = 8 ∧ sg = true) : NativeSteps (getstateDeriv P pd am d).valsEnc := by
+    (h : ∀ w sg, d.dtype = .int w sg → w = 8 ∧ sg = IntFmt.native) : NativeSteps (getstateDeriv P pd am d).valsEnc := by
   unfold getstateDeriv
   cases am with
   | none => exact getstate1_native P d h
@@ -311,15 +311,22 @@ def exParams : Params :=
     lossyEnc := fun _ _ _ => [], lossyDec := fun _ => [] }
 
 def exObj : Obj :=
-  { cls := "Scalar", shape := [2, 3], numer := [], denom := [], dtype := .int 2 true,
+  { cls := "Scalar", shape := [2, 3], numer := [], denom := [], dtype := .int 2 ⟨true, true⟩,
     vals := .array [2, 3] [[1], [65535], [3], [4], [5], [6]],
     mask := .array [true, true, true, true, false, false], units := 0, readonly := false,
     valsW := true, maskW := true, default := [1], digits := none, cache := [], fpzipFails := false }
 
 example : (getstate1 exParams exObj).1.maskEnc = [.corners [1, 1] [2, 3], .bool [1, 2] 2] := by decide
-example : (getstate1 exParams exObj).1.valsEnc = [.antimasked, .int [2] (some (2, true))] := by decide
+example : (getstate1 exParams exObj).1.valsEnc = [.antimasked, .int [2] (some (2, ⟨true, true⟩))] := by decide
 example : (setstate1 exParams (getstate1 exParams exObj).1).map (·.1.vals)
     = some (.array [2, 3] [[1], [1], [1], [1], [5], [6]]) := by decide
+
+/-- the byte order recorded in the INT step matters: the buffer of a big-endian int16 array read
+    with a little-endian descriptor (a step that records `dtype.name` instead of `dtype.str`) gives
+    byte-swapped values, silently -/
+theorem byteorder_counterexample :
+    decodeInts false 2 1 [2] (intBytes true 2 [[1], [258]]) = some [[256], [513]] ∧
+    decodeInts true 2 1 [2] (intBytes true 2 [[1], [258]]) = some [[1], [258]] := by decide
 
 /-- the defect of the pinned tree (an INT step without dtype is decoded as int64): the state
     of an int16 array does not unpickle — `__setstate__` raises -/
